@@ -230,6 +230,7 @@ def gen_spec(rng, fmt, natoms=None):
         els = list(rng.choice(VALENCE_FAMILIES))           # mixed valence: same bare symbol, different charges
     atoms = []
     raw_noel = fmt == "rawxyz" and rng.random() < 0.25
+    label_mode = rng.choice([0, 0, 1, 2]) if fmt == "cif" else 0   # 0: no labels, 1: label = element symbol, 2: a few arbitrary labels (duplicates)
     for _ in range(natoms):
         xyz = [gen_coord(rng, fmt, scale) for _ in range(3)]
         if fmt == "pdb":
@@ -250,6 +251,10 @@ def gen_spec(rng, fmt, natoms=None):
              "adp": gen_adp(rng, cell)}
         if fmt == "pdb" and rng.random() < 0.3:
             a["label"] = rng.choice(["A1", "Ca", "X", "O12", "Na1+"])
+        if fmt == "cif" and label_mode:
+            # labels left by an earlier read in another format (the PDB reader stores the atom NAME, i.e. the element symbol,
+            # as label): not unique in general; the CIF writer numbers its own labels and must not be misled by them
+            a["label"] = a["el"] if label_mode == 1 else rng.choice(["A1", "X", a["el"], a["el"] + "1"])
         atoms.append(a)
     if natoms >= 2 and rng.random() < 0.25:
         # symmetry-related sites: mirror / two-fold images carry equal and opposite off-diagonal terms, so a component
